@@ -40,6 +40,7 @@ const (
 	c18FComment   = "C18-predicate-in-comment"
 	c18FArith     = "C18-literal-arithmetic-ignored"
 	c18FMonth     = "C18-month-interval-arithmetic"
+	c18FOffCast   = "C18-offset-literal-cast-to-timestamp"
 )
 
 const c18HourUs = int64(3600) * 1000000
@@ -233,7 +234,7 @@ func (g *c18Gen) instant() int64 {
 // returns the text plus the instant the text actually denotes.
 func (g *c18Gen) literal(us int64) (string, int64) {
 	tt := time.UnixMicro(us).UTC()
-	switch rapid.IntRange(0, 8).Draw(g.t, "fmt") {
+	switch rapid.IntRange(0, 10).Draw(g.t, "fmt") {
 	case 0, 1:
 		s := tt.Format("2006-01-02 15:04:05")
 		return s, tt.Truncate(time.Second).UnixMicro()
@@ -242,7 +243,7 @@ func (g *c18Gen) literal(us int64) (string, int64) {
 	case 3:
 		g.feat["rfc3339"] = true
 		return tt.Format("2006-01-02T15:04:05Z"), tt.Truncate(time.Second).UnixMicro()
-	case 4:
+	case 4, 9, 10:
 		g.feat["tz-offset"] = true
 		off := rapid.SampledFrom([]int{2 * 3600, -5*3600 - 1800, 14 * 3600, -8 * 3600, 5*3600 + 45*60}).Draw(g.t, "tzoff")
 		z := time.FixedZone("", off)
@@ -323,17 +324,36 @@ func (g *c18Gen) lower(alias string, us int64) string {
 		return g.timeCol(alias) + g.opsp(op) + g.relative(us)
 	}
 	lit, _ := g.literal(us)
-	return g.timeCol(alias) + g.opsp(op) + "'" + lit + "'" + g.castSuffix()
+	return g.timeCol(alias) + g.opsp(op) + "'" + lit + "'" + g.castSuffix(lit)
 }
 
-func (g *c18Gen) castSuffix() string {
+// castSuffix optionally appends a cast to the literal. A literal carrying a UTC
+// offset that is cast to the zone-less TIMESTAMP is a known finding (DuckDB
+// drops the offset, the pruner applies it).
+func (g *c18Gen) castSuffix(lit string) string {
 	switch rapid.IntRange(0, 9).Draw(g.t, "cast") {
 	case 0:
 		return "::TIMESTAMPTZ"
 	case 1:
+		if c18HasOffset(lit) {
+			if verifkit.Excluded(c18FOffCast) {
+				verifkit.CountExcluded(c18FOffCast)
+				return "::TIMESTAMPTZ"
+			}
+			g.feat["offset-literal-cast-timestamp"] = true
+		}
 		return "::TIMESTAMP"
 	}
 	return ""
+}
+
+// c18HasOffset: the literal ends in a non-zero +hh:mm / -hh:mm offset.
+func c18HasOffset(lit string) bool {
+	if len(lit) < 7 {
+		return false
+	}
+	tail := lit[len(lit)-6:]
+	return (tail[0] == '+' || tail[0] == '-') && tail[3] == ':' && strings.Contains(lit, "T") && tail != "+00:00"
 }
 
 func (g *c18Gen) upper(alias string, us int64) string {
@@ -355,7 +375,7 @@ func (g *c18Gen) upper(alias string, us int64) string {
 			g.feat["inclusive-end-on-hour"] = true
 		}
 	}
-	return g.timeCol(alias) + g.opsp(op) + "'" + lit + "'" + g.castSuffix()
+	return g.timeCol(alias) + g.opsp(op) + "'" + lit + "'" + g.castSuffix(lit)
 }
 
 func (g *c18Gen) between(alias string, a, b int64) string {
@@ -406,6 +426,14 @@ func (g *c18Gen) rangePreds(alias string) []string {
 	}
 	if rapid.IntRange(0, 4).Draw(g.t, "widen") == 0 {
 		b += int64(rapid.IntRange(1, 30).Draw(g.t, "widenh")) * c18HourUs
+	}
+	// move the bounds off the row instants by up to two hours (in seconds), so
+	// that bounds fall at arbitrary minutes inside and between partitions
+	if rapid.Bool().Draw(g.t, "jittera") {
+		a -= int64(rapid.IntRange(0, 7200).Draw(g.t, "ja")) * 1000000
+	}
+	if rapid.Bool().Draw(g.t, "jitterb") {
+		b += int64(rapid.IntRange(0, 7200).Draw(g.t, "jb")) * 1000000
 	}
 	kind := rapid.IntRange(0, 9).Draw(g.t, "rangekind")
 	switch {
@@ -699,7 +727,7 @@ func c18Metamorphic(e *qEnv, q c18Query) (class, detail string, narrowedHint boo
 
 func c18FailClass(q c18Query) string {
 	// root-cause key from the generator's knowledge of the shape
-	keys := []string{"bool-structure", "suffix-column", "literal-arith", "predicate-in-comment", "range-on-one-table-only",
+	keys := []string{"offset-literal-cast-timestamp", "bool-structure", "suffix-column", "literal-arith", "predicate-in-comment", "range-on-one-table-only",
 		"start-only", "end-only", "inclusive-end-on-hour", "relative-month"}
 	for _, k := range keys {
 		if q.Feat[k] {
@@ -882,6 +910,15 @@ func TestVerifKF_C18_literal_arithmetic(t *testing.T) {
 	e := c18KFEnv(t, c18KFNow, c18KFRows)
 	c18KF(t, c18FArith, e, "SELECT id FROM cpu WHERE time >= '2024-03-15 10:00:00'::TIMESTAMPTZ - INTERVAL '1 hour' AND time < '2024-03-15 12:00:00'",
 		"SELECT id FROM cpu WHERE time >= '2024-03-15 09:00:00'::TIMESTAMPTZ AND time < '2024-03-15 12:00:00'")
+}
+
+func TestVerifKF_C18_offset_literal_cast(t *testing.T) {
+	e := c18KFEnv(t, c18KFNow, c18KFRows)
+	fact := e.arcQuery("SELECT CAST('2024-03-15T12:30:00+02:00'::TIMESTAMP AS VARCHAR) AS naive, CAST(('2024-03-15T12:30:00+02:00'::TIMESTAMPTZ AT TIME ZONE 'UTC') AS VARCHAR) AS aware", "")
+	t.Logf("duckdb: %v %v", fact.Rows, fact.Err)
+	c, d, _ := c18Metamorphic(e, c18Query{SQL: "SELECT id FROM cpu WHERE time >= '2024-03-15 00:00:00' AND time < '2024-03-15T12:30:00+02:00'::TIMESTAMP"})
+	cc, cd, _ := c18Metamorphic(e, c18Query{SQL: "SELECT id FROM cpu WHERE time >= '2024-03-15 00:00:00' AND time < '2024-03-15T12:30:00+02:00'"})
+	verifkit.KnownFinding(c18FOffCast, c == "rows-differ" && cc == "", fmt.Sprintf("duckdb says %v; %s (control without cast: %s)", fact.Rows, d, cc+cd))
 }
 
 func TestVerifKF_C18_month_interval(t *testing.T) {
